@@ -13,7 +13,8 @@ sums and requires the same three-term form (base + size*event + arange(size)) wi
 """
 import ast
 
-from .common import (AnalysisError, Finding, RuleResult, ntext, walk_no_nested, call_name, accum)
+from .common import (AnalysisError, Finding, RuleResult, ntext, walk_no_nested, call_name, accum,
+                     single_defs, expand_locals, pmatch)
 
 RULE = 'R31'
 TEXT = ('rule_var (writer) and DecVar.get (reader) use the same column layout '
@@ -34,11 +35,16 @@ def mul_factors(e):
 
 
 def classify_index(expr):
-    """-> dict(base=text, size=text, event=text, k=text) or raises AnalysisError"""
+    """-> dict(base=text, size=text, event=node, k=text) or raises AnalysisError"""
     out = {}
     for t in add_terms(expr):
         if isinstance(t, ast.Call) and call_name(t) in ('np.arange', 'numpy.arange'):
-            out['k'] = ntext(t.args[0])
+            pos = [a for a in t.args]
+            if len(pos) == 2 and isinstance(pos[0], ast.Constant) and pos[0].value == 0:
+                pos = pos[1:]                     # arange(0, n) == arange(n)
+            if len(pos) != 1:
+                raise AnalysisError('R31: `%s` is not arange(size)' % ntext(t))
+            out['k'] = ntext(pos[0])
         elif isinstance(t, ast.BinOp) and isinstance(t.op, ast.Mult):
             fs = mul_factors(t)
             if len(fs) != 2:
@@ -61,16 +67,32 @@ def run(repo):
     rv = repo.func('dro.Model.rule_var')
     gt = repo.func('lp.DecVar.get')
     res.functions.update([rv.fq, gt.fq])
-    # ---- writer
+    wdefs = {k: v for k, v in single_defs(rv.node).items() if k not in ('size',)}
+    rdefs = single_defs(gt.node)
+
+    def wx(e):
+        return expand_locals(rv.node, e, depth=3, defs=wdefs)
+
+    def rx(e):
+        return expand_locals(gt.node, e, depth=3, defs=rdefs)
+
+    def strip(e):
+        while isinstance(e, ast.Call) and call_name(e) in ('list', 'tuple') and e.args:
+            e = e.args[0]
+        return e
+    # ---- writer: the first  <index list>.extend(..) / += ..  whose argument mentions a size (not `num`)
     w_index = None
-    for n in walk_no_nested(rv.node):
-        if isinstance(n, ast.Call) and isinstance(n.func, ast.Attribute) and n.func.attr == 'extend' \
-                and ntext(n.func.value) == 'index' and w_index is None:
+    for n in sorted(walk_no_nested(rv.node), key=lambda x: (getattr(x, 'lineno', 0), getattr(x, 'col_offset', 0))):
+        arg = None
+        if isinstance(n, ast.Call) and isinstance(n.func, ast.Attribute) and n.func.attr == 'extend' and n.args:
             arg = n.args[0]
-            while isinstance(arg, ast.Call) and call_name(arg) in ('list', 'tuple'):
-                arg = arg.args[0]
-            if 'size' in ntext(arg) and 'num' not in ntext(arg):
-                w_index = arg
+        elif isinstance(n, ast.AugAssign) and isinstance(n.op, ast.Add) and isinstance(n.target, ast.Name):
+            arg = n.value
+        if arg is None or w_index is not None:
+            continue
+        arg = wx(strip(arg))
+        if 'size' in ntext(arg) and 'arange' in ntext(arg) and 'num' not in ntext(arg).replace('num_', ''):
+            w_index = arg
     if w_index is None:
         raise AnalysisError('rule_var: index.extend(start + size*edict[s] + arange(size)) not found')
     w = classify_index(w_index)
@@ -86,15 +108,19 @@ def run(repo):
     for n in walk_no_nested(rv.node):
         a = accum(n)
         if a is not None and a[0] in (count_var, w['base']):
-            incs[a[0]] = sorted(ntext(f).replace('dvar.', '').replace('self.', '') for f in mul_factors(a[1]))
+            incs[a[0]] = sorted(ntext(f).split('.')[-1] if not ntext(f).startswith('len(') else
+                                'len(' + ntext(f)[4:-1].split('.')[-1] + ')' for f in mul_factors(wx(a[1])))
+    if count_var not in incs or w['base'] not in incs:
+        raise AnalysisError('rule_var: the running sums `%s` / `%s` are not advanced by  x += ..' % (count_var, w['base']))
     # ---- reader
     r_index = None
     for n in walk_no_nested(gt.node):
-        if isinstance(n, ast.Assign) and isinstance(n.targets[0], ast.Name) and 'ro_first' in ntext(n.value):
-            r_index = n.value
+        if isinstance(n, ast.Assign) and isinstance(n.targets[0], ast.Name) and 'ro_first' in ntext(rx(n.value)) \
+                and 'arange' in ntext(rx(n.value)):
+            r_index = n
     if r_index is None:
         raise AnalysisError('DecVar.get: index expression with ro_first not found')
-    r = classify_index(r_index)
+    r = classify_index(rx(r_index.value))
 
     def rec(desc, ok, msg, fi):
         res.inst({'check': desc, 'ok': ok}, ok)
@@ -102,18 +128,31 @@ def run(repo):
             res.fail(Finding(RULE, fi.fq, desc, msg, repo.where(fi), P))
 
     # event factors
-    w_ev_ok = isinstance(w['event'], ast.Subscript) and isinstance(w['event'].value, ast.Name) and any(
-        isinstance(n, ast.Assign) and ntext(n.targets[0]) == w['event'].value.id and
-        isinstance(n.value, ast.Call) and call_name(n.value) == 'event_dict' for n in walk_no_nested(rv.node))
-    rec('writer: event factor is event_dict(..)[scenario]', w_ev_ok,
+    st, b, _d = pmatch('event_dict(__)[_s]', w['event'])
+    if st == 'shape':
+        raise AnalysisError('rule_var: the event factor `%s` is not event_dict(..)[scenario] in a form the rule follows'
+                            % ntext(w['event'])[:50])
+    s_ok = st == 'match' and any(isinstance(n, ast.For) and isinstance(n.target, ast.Name) and n.target.id == b['_s'][1]
+                                 and 'num_scen' in ntext(wx(n.iter)) for n in walk_no_nested(rv.node))
+    rec('writer: event factor is event_dict(..)[scenario]', s_ok,
         'rule_var multiplies the block size by `%s`, which is not the event position of the scenario '
         '(event_dict(dvar.event_adapt)[s])' % ntext(w['event']), rv)
     r_ev = ntext(r['event'])
-    r_ev_ok = any(isinstance(n, ast.For) and isinstance(n.target, ast.Name) and n.target.id == r_ev and
-                  'len(self.event_adapt)' in ntext(n.iter) and
-                  any(r_index is x for x in ast.walk(n)) for n in walk_no_nested(gt.node))
+    loops = [n for n in walk_no_nested(gt.node) if isinstance(n, ast.For) and any(x is r_index for x in ast.walk(n))]
+    r_ev_ok = False
+    known_shape = False
+    for n in loops:
+        it = rx(n.iter)
+        if isinstance(n.target, ast.Name) and n.target.id == r_ev:
+            known_shape = True
+            r_ev_ok = pmatch('range(len(self.event_adapt))', it)[0] == 'match'
+        elif isinstance(n.target, ast.Tuple) and n.target.elts and ntext(n.target.elts[0]) == r_ev:
+            known_shape = True
+            r_ev_ok = pmatch('enumerate(self.event_adapt)', it)[0] == 'match'
+    if not known_shape:
+        raise AnalysisError('DecVar.get: the loop binding the event factor `%s` was not found' % r_ev)
     rec('reader: event factor ranges over the event positions', r_ev_ok,
-        'DecVar.get multiplies the block size by `%s`, which does not range over range(len(self.event_adapt))'
+        'DecVar.get multiplies the block size by `%s`, which does not range over the positions of self.event_adapt'
         % r_ev, gt)
     rec('entry term is arange(size) on both sides', w['k'].split('.')[-1] == 'size' and r['k'].split('.')[-1] == 'size'
         and w['size'].split('.')[-1] == 'size' and r['size'].split('.')[-1] == 'size',
@@ -121,19 +160,18 @@ def run(repo):
     rec('reader base is ro_first', r['base'].endswith('ro_first'),
         'DecVar.get starts from `%s`, not from ro_first' % r['base'], gt)
     # running sums
-    inc_ok = count_var in incs and w['base'] in incs and incs[count_var] == incs[w['base']] and \
+    inc_ok = incs[count_var] == incs[w['base']] and \
         any('len(' in x for x in incs[count_var]) and 'size' in incs[count_var]
     rec('writer: both running sums advance by size * len(event_adapt)', inc_ok,
         'rule_var advances `%s` by %s and `%s` by %s; both must be size * len(event_adapt)'
         % (count_var, incs.get(count_var), w['base'], incs.get(w['base'])), rv)
-    # ro_first assigned from count before count advances (same loop body, earlier statement)
     order_ok = False
     for n in walk_no_nested(rv.node):
         if isinstance(n, ast.For):
             a = [i for i, s_ in enumerate(n.body) if isinstance(s_, ast.Assign) and
                  isinstance(s_.targets[0], ast.Attribute) and s_.targets[0].attr == 'ro_first']
-            b = [i for i, s_ in enumerate(n.body) if (accum(s_) or (None,))[0] == count_var]
-            if a and b and a[0] < b[0]:
+            b_ = [i for i, s_ in enumerate(n.body) if (accum(s_) or (None,))[0] == count_var]
+            if a and b_ and a[0] < b_[0]:
                 order_ok = True
     rec('writer: ro_first recorded before the running sum advances', order_ok,
         'rule_var must assign dvar.ro_first = count before adding the decision\'s own block to count', rv)
